@@ -181,35 +181,30 @@ def _judge_dest(name, typ, key, got, e, report):
             if missing:
                 report("C16.dest-complete", f"trace {name} at {key}: no write row for kept coordinates {missing}")
         return
-    if typ == "populate_write_0":
-        if coords != kept_coords:
-            report("C16.one-row-per-access", f"trace {name} at {key}: write rows for {coords}, the loop kept {kept_coords}")
+    # replay the destination fiber: present before, inserted when offered, removed again when not kept
+    cur = sorted(zb)
+    want_rows = []
+    for c, k in zip(offered, kept):
+        existed = c in cur
+        if not existed:
+            bisect.insort(cur, c)
+        idx = cur.index(c)
+        if typ == "populate_write_0":
+            if k:
+                want_rows.append((c, idx))
+        else:
+            if existed:
+                want_rows.append((c, idx))
+        if not k:
+            cur.remove(c)
+    if coords != [c for c, _ in want_rows]:
+        what = "write rows" if typ == "populate_write_0" else "read rows"
+        report("C16.one-row-per-access", f"trace {name} at {key}: {what} for {coords}, the loop "
+                                         f"{'kept' if typ == 'populate_write_0' else 'found already present'} "
+                                         f"{[c for c, _ in want_rows]}")
+        return
+    for (c, pos), (_, want) in zip(got, want_rows):
+        if pos != want:
+            report("C16.position", f"trace {name} at {key}: access to {c} reports position {pos}, "
+                                   f"its index in the destination fiber is {want}")
             return
-        cur = sorted(zb)
-        for (c, pos), _ in zip(got, kept_coords):
-            if c not in cur:
-                bisect.insort(cur, c)
-            want = cur.index(c)
-            if pos != want:
-                report("C16.position", f"trace {name} at {key}: write of {c} reports position {pos}, "
-                                       f"its index in the destination fiber is {want}")
-                return
-    else:
-        existed = [c for c in offered if c in zb]
-        if coords != existed:
-            report("C16.one-row-per-access", f"trace {name} at {key}: read rows for {coords}, "
-                                             f"offered coordinates already present in the destination: {existed}")
-            return
-        cur = sorted(zb)
-        ki = 0
-        for c, k in zip(offered, kept):
-            if c in zb:
-                want = cur.index(c)
-                pos = got[ki][1]
-                ki += 1
-                if pos != want:
-                    report("C16.position", f"trace {name} at {key}: read of {c} reports position {pos}, "
-                                           f"its index in the destination fiber is {want}")
-                    return
-            elif k:
-                bisect.insort(cur, c)
